@@ -527,7 +527,7 @@ PLAIN_ITEMS = [["a", "1"], ["b", "2"], ["a", "2"], ["a", None], ["a", ""], ["", 
 FRAGMENTS = [None, "", "top", "/route", "!/x", "!", "/", "!/", "x/y", "!x", "/a/b?c=d", "%2Froute", "a b", "%41", "É".lower(), "#", "?"]
 UNPARSEABLE = ["http://[::1", "http://a.com:99999/", "http://a.com:x/", "http://a.com:-1/", "http://]", "http://[x]/", "a.com:99999", "[::1", "http://a]b/",
                "http://a.com:80:80/", "http://u@[::1/", "http://a.com:٣/", "//[", "http://[::1]x/", "http://a.com: 80/"]
-# urls the parser refuses, by shape (FX-C07-FPTOTAL: fingerprint_url used to raise on every one of them —
+# urls the parser refuses, by shape (FX-C07-c806a8b: fingerprint_url used to raise on every one of them —
 # ValueError "too many values to unpack", AttributeError on five characters): bad port, unbalanced / invalid
 # bracket, netloc refused by the NFKC check, five-character strings, very long labels (refused or not: the idna
 # codec's length limit is caught inside attempt_to_decode_idna)
